@@ -88,10 +88,39 @@ def fold_strings_all():
     return out
 
 
+ZONE_WORDS = ["UTC", "GMT", "Z", "EST", "PST", "CET", "CEST", "MSK", "IST", "AKST", "NPT", "PKT", "JST", "WET", "EET", "BST", "CST", "EDT", "HST", "AEST", "ACDT", "UZT"]
+BODIES_TZ = ["Mon, 12 Jan 2020 10:00:00", "12 Jan 2020 10:00", "2020-01-12 10:00:00", "January 12, 2020 10:00 PM", "10:00", "12/01/2020 10:00", "yesterday 10:00",
+             "2 hours ago", "Thu Mar 05 2015 10:11:12"]
+
+
+def zone_string(rng):
+    """a date-time followed by something that LOOKS like a zone: an abbreviation of the table with a character added,
+    removed or re-cased, alone, in parentheses, after a numeric offset, glued to the time - the several places that
+    decide "is this a timezone?" (prefix match, whole-word match, case) may disagree about such words"""
+    w = rng.choice(ZONE_WORDS)
+    r = rng.random()
+    if r < 0.3:
+        w = w + rng.choice("xsZ8t0.")
+    elif r < 0.4:
+        w = rng.choice("xAa1") + w
+    elif r < 0.5 and len(w) > 2:
+        w = w[:-1]
+    elif r < 0.6:
+        w = w.lower() if rng.random() < 0.5 else w.capitalize() + rng.choice(["", "ulu", "ime"])
+    elif r < 0.7:
+        w = w + rng.choice(["+8", "-5", "+0530", "8", "+25", "-1500", "+05:60"])
+    off = rng.choice(["+0800", "-0800", "+05:30", "-03:30", "+0000", "+1400", "-0530", "+9999", "GMT+0800", "UTC-05:00", "GMT+1", ""])
+    shape = rng.choice(["%(b)s %(o)s (%(w)s)", "%(b)s %(o)s(%(w)s)", "%(b)s (%(w)s)", "%(b)s %(w)s", "%(b)s%(w)s", "%(b)s %(w)s %(o)s", "%(b)s %(o)s %(w)s", "%(w)s %(b)s",
+                        "%(b)s %(o)s (%(w)s) 2020", "%(b)s %(o)s [%(w)s]", "%(b)s %(o)s (%(w)s %(w)s)"])
+    return " ".join((shape % {"b": rng.choice(BODIES_TZ), "o": off, "w": w}).split())
+
+
 def gen_string(rng, maxlen=100):
     r = rng.random()
     if r < 0.08:
         return (gate_string(rng) if rng.random() < 0.7 else fold_string(rng))[:maxlen]
+    if r < 0.13:
+        return zone_string(rng)[:maxlen]
     if r < 0.25:        # token soup along the model's alphabets
         n = rng.randint(1, 7)
         parts = []
